@@ -647,6 +647,19 @@ func runParent(p *Property, tier string) int {
 		"workers":                       nw,
 		"explanation":                   "states = distinct enumerated cases (operation + operands + receiver state; the enumerators de-duplicate by construction); transitions = executions of the real operation, one per state; every transition is compared with the reference model, hence traces_validated_against_impl = transitions.",
 	}
+	if xp := os.Getenv("VERIF_EXTRA_EVIDENCE"); xp != "" {
+		if xb, err := os.ReadFile(xp); err == nil {
+			var xv interface{}
+			if json.Unmarshal(xb, &xv) == nil {
+				cov["transcripts"] = xv
+				if m, ok := xv.(map[string]interface{}); ok {
+					if id, ok := m["identical"].(bool); ok && !id {
+						viol = append(viol, Failure{Layer: "transcripts", Key: "transcript-mismatch", Detail: "see VIOLATION line printed by scripts/transcripts.sh"})
+					}
+				}
+			}
+		}
+	}
 	ev := Evidence{PropertyID: p.ID, Tier: tier, Seed: seedFromEnv(), Level: p.Level, Coverage: cov,
 		Assumptions: p.Assumptions, WallS: time.Since(start).Seconds(), Violations: len(viol)}
 	eb, _ := json.MarshalIndent(ev, "", " ")
